@@ -68,6 +68,34 @@ def targeted(ctx):
     return items
 
 
+def spec_races(ctx):
+    """the speculative timer fires while send_request is inside _query for its first host, before anything was sent"""
+    items = []
+    for n in (2, 3):
+        for first in range(7):
+            for maxa in (1, 2):
+                pools = [6] * n
+                pools[0] = first
+                sc = base(n, list(range(n)), pools, idem=True, spec=[True, maxa], script=[[3, None]] * 6)
+                run = H.Run(sc)
+                orc = K.Oracle(sc, run, PID)
+                obs = []
+                op = ['start', 'spec_in_borrow']
+                for i in range(12):
+                    sc['ops'].append(op)
+                    obs.append(orc.step(i, op))
+                    if run.env.queue:
+                        op = ['run', 0]
+                    elif run.spec_armed() and i < 3:
+                        op = ['spec']
+                    elif run.open_attempts():
+                        op = ['resp', run.open_attempts()[0], [3, 3, 20 + i]]
+                    else:
+                        break
+                items.append((sc, obs, orc.bad, {'nontrivial': True}))
+    return items
+
+
 def randoms(ctx, count):
     items = []
     for i in range(count):
@@ -96,6 +124,9 @@ def run(ctx):
     tg = targeted(ctx)
     items += tg
     ctx.count('source', 'explicit_target', len(tg))
+    sr = spec_races(ctx)
+    items += sr
+    ctx.count('source', 'speculative_timer_inside_first_query', len(sr))
     rd = randoms(ctx, int((800 if ctx.tier == 'quick' else 6000) * K.SCALE))
     items += rd
     ctx.count('source', 'random_history', len(rd))
